@@ -151,6 +151,7 @@ func init() {
 		}
 	})
 	h.RegisterReplay("CorpusSweep", checkRoundTrip("CorpusSweep"))
+	h.RegisterReplay("Fuzz", checkRoundTrip("Fuzz"))
 }
 
 func TestPropSyn(t *testing.T)    { rapid.Check(t, propSyn) }
@@ -486,3 +487,32 @@ func TestReplay(t *testing.T) {
 }
 
 func TestReplayFile(t *testing.T) { h.TestReplayEnv(t) }
+
+// FuzzRoundTrip is the byte-level coverage-guided target (thorough tier): whatever go/parser
+// accepts is brought to its gofmt fixpoint and must then round-trip byte for byte (inputs in the
+// class of an open finding are judged by the weak comparison, as everywhere).
+func FuzzRoundTrip(f *testing.F) {
+	for _, s := range []string{
+		"package p\n\nfunc f() {\n\t// c\n\tx := 1 /* d */\n\n\t// e\n}\n",
+		"package p\n\nimport (\n\t\"a\"\n\n\t\"b\" // t\n)\n\nvar x = `a\nb` // c\n",
+		"package p\n\ntype T struct {\n\ta int `t` // c\n\n\t// d\n\tb string\n}\n\nfunc (t T) M() {\n\tswitch x := y.(type) {\n\tcase int:\n\t\t// h\n\tdefault:\n\t}\n}\n",
+		"//go:build x\n\n// Package p.\npackage p\n\n/*\nblock\n*/\nfunc f(a, b int, /* c */ c ...int) (r int) {\n\treturn f(\n\t\ta, // x\n\t\tb,\n\t)\n}\n",
+		"package p\n\nfunc f() {\n\tselect {\n\tcase <-c:\n\t\t// only a comment\n\tcase x := <-d: // t\n\t\t_ = x\n\t}\n\tfor i := range x {\n\tL:\n\t\tgoto L\n\t}\n}\n",
+	} {
+		f.Add([]byte(s), uint8(0))
+	}
+	f.Fuzz(func(t *testing.T, data []byte, e uint8) {
+		if len(data) > 4000 {
+			return
+		}
+		src, fix, err := oracle.Canon(data)
+		if err != nil || !fix {
+			return
+		}
+		if _, _, err := oracle.Parse(src); err != nil {
+			return
+		}
+		h.Eval("Fuzz")
+		checkRoundTrip("Fuzz")(t, Case{Src: string(src), Entry: int(e) % dsth.NumEntries, Mode: int(e) / 16, Pre: int(e) % 3})
+	})
+}
